@@ -108,6 +108,24 @@ fn app_may_use<R: role::RoleType>(run: &Runner<R>, g: &Ghost, id: u64) -> bool {
     used && !owned
 }
 
+fn with_payload_len(p: &Packet, n: usize) -> Option<Packet> {
+    match p {
+        GenericPacket::V5_0Publish(x) => {
+            let mut b = v5_0::GenericPublish::<Pid>::builder()
+                .topic_name(x.topic_name())
+                .ok()?
+                .qos(x.qos())
+                .payload(vec![0x61u8; n])
+                .props(x.props().clone());
+            if let Some(id) = x.packet_id() {
+                b = b.packet_id(id);
+            }
+            b.dup(x.dup()).retain(x.retain()).build().ok().map(|y| y.into())
+        }
+        _ => None,
+    }
+}
+
 fn bytes_of(p: &Packet) -> Vec<u8> {
     p.to_continuous_buffer()
 }
@@ -719,6 +737,17 @@ fn local_send<R: role::RoleType>(
             }
         }
         if let Some(p) = mk_publish(rng, wv, qos, id, false) {
+            // bias 14: sizes right at the peer's Maximum Packet Size (limit-6 .. limit+1)
+            let lim = s.maximum_packet_size_send as usize;
+            let p = if bias == 14 && wv == 5 && lim >= 12 && lim < 400 && rng.chance(2, 3) {
+                let target = lim + 1 - rng.below(8) as usize;
+                let cur = p.size();
+                let pl = match &p { GenericPacket::V5_0Publish(x) => x.payload().len(), _ => 0 };
+                let want = (pl + target).saturating_sub(cur);
+                with_payload_len(&p, want).unwrap_or(p)
+            } else {
+                p
+            };
             if wv == 5 && rng.chance(1, 25) {
                 run.apply(&Op::Regulate(p.clone()), st);
             }
